@@ -18,7 +18,10 @@ CLAIMED = {
               "zero step it never advances (the hang); the step selection honours a user value at or below the limit, "
               "ignores one above it, caps at 1 cm and never exceeds the limit.  The model is tied to the real Reactor "
               "methods by differential correspondence on every run; full Reactor constructions run under a wall-clock "
-              "limit."),
+              "limit (the boundaries that must be planes are taken from the input, not from the code's own list).  A second "
+              "model (Model/Regions.lean, Props/C05Regions.lean) covers which axial region a step belongs to: a step ending "
+              "inside or ON the upper bound of region i is computed in region i, for any increasing bounds on the grid; tied "
+              "to Assembly._identify_active_region by correspondence (planes on / next to every bound)."),
         note=COMMON_NOTE + ("T3 hand model + correspondence (stub Reactor objects: _setup_zpts/_check_dz, "
                             "_setup_axial_region_bnds, _setup_overall_axial_mesh_req) and an implementation oracle on "
                             "full constructions.  Steps that are not multiples of 1e-12 m, and float comparison effects, "
